@@ -191,6 +191,22 @@ func (g *TGen) Callee() ast.Expression {
 		g.Budget--
 		return &ast.GroupedExpression{Token: tk(token.LPAREN, "("), Expression: g.Expr(), RParen: tk(token.RPAREN, ")")}
 	}
+	if sym.Param("calleeleaves", 0) == 1 {
+		// atomic expressions that are legal in callee / object position and
+		// whose first token is special at the start of a statement
+		switch sym.Choose("calleeleaf", 4) {
+		case 1:
+			g.emit(KObject, 0)
+			return &ast.ObjectLiteral{Token: tk(token.LBRACE, "{"), Properties: []ast.ObjectProperty{}, RBrace: tk(token.RBRACE, "}")}
+		case 2:
+			g.emit(KFuncExpr, 0, 0, KBlock, 0, KEnd)
+			return &ast.FunctionExpression{Token: tk(token.FUNCTION, "function"), Parameters: []*ast.Identifier{},
+				Body: &ast.BlockStatement{Token: tk(token.LBRACE, "{"), Statements: []ast.Statement{}, RBrace: tk(token.RBRACE, "}")}}
+		case 3:
+			g.emit(KArray, 0)
+			return &ast.ArrayLiteral{Token: tk(token.LBRACKET, "["), Elements: []ast.Expression{}, RBracket: tk(token.RBRACKET, "]")}
+		}
+	}
 	return g.ident("a")
 }
 
